@@ -6,18 +6,14 @@ Open Scope N_scope.
 
 (* on every path in the image of the parser (steps after $ / @ are plain steps or filters; filter expressions are
    comparisons of operands, && / ||, exists(...); arithmetic is parsed but answered with an error) evaluation ends
-   in a result or an error, for every document *)
-Theorem C08_evaluation_never_panics : forall fuel root cur ps k,
-  match ps with
-  | PCurrent :: r => cur <> None /\ forallb (step_ok k) r = true
-  | PRoot :: r => forallb (step_ok k) r = true
-  | [PPredicate e] => expr_ok k e = true
-  | r => forallb (step_ok k) r = true
-  end -> find_positions fuel root cur ps <> Panic.
+   in a result or an error, for every document.  `path_ok`, `step_ok`, `expr_ok` are structural: no bound on the
+   length or the nesting depth of the path (EvalProofs.v) *)
+Theorem C08_evaluation_never_panics : forall root cur ps,
+  path_ok (match cur with Some _ => true | None => false end) ps -> find_positions root cur ps <> Panic.
 Proof. exact find_positions_np. Qed.
 Print Assumptions C08_evaluation_never_panics.
 
-Theorem C08_filter_never_panics : forall fuel root pos e k, expr_ok k e = true -> filter_expr fuel root pos e <> Panic.
+Theorem C08_filter_never_panics : forall root e, expr_ok e = true -> forall pos, filter_expr root pos e <> Panic.
 Proof. exact filter_expr_np. Qed.
 Print Assumptions C08_filter_never_panics.
 
@@ -25,12 +21,12 @@ Print Assumptions C08_filter_never_panics.
    keeps an item when some pair of operand values satisfies the comparison *)
 Example C08_example_selection :
   let doc := VObj [([97], VArr [VNum (NUInt 1); VNum (NUInt 5); VNum (NUInt 9)]); ([98], VNum (NUInt 5))] in
-  find_positions PATH_FUEL doc None [PRoot; PDotField [97]; PIndices [ASlice (IIndex 1) (ILast 0); AIndex (IIndex 0)]]
+  find_positions doc None [PRoot; PDotField [97]; PIndices [ASlice (IIndex 1) (ILast 0); AIndex (IIndex 0)]]
     = Ok [VNum (NUInt 5); VNum (NUInt 9); VNum (NUInt 1)] /\
-  find_positions PATH_FUEL doc None [PRoot; PDotField [97]; PBracketWild; PFilter (EBin OEq (EPaths [PCurrent]) (EPaths [PRoot; PDotField [98]]))]
+  find_positions doc None [PRoot; PDotField [97]; PBracketWild; PFilter (EBin OEq (EPaths [PCurrent]) (EPaths [PRoot; PDotField [98]]))]
     = Ok [VNum (NUInt 5)] /\
-  find_positions PATH_FUEL doc None [PRoot; PDotField [98]; PBracketWild] = Ok [VNum (NUInt 5)] /\
-  find_positions PATH_FUEL doc None [PRoot; PFilter (EArithB BAdd (EPaths [PCurrent]) (EValue (PVNum (NUInt 1))))] = Err EOther.
+  find_positions doc None [PRoot; PDotField [98]; PBracketWild] = Ok [VNum (NUInt 5)] /\
+  find_positions doc None [PRoot; PFilter (EArithB BAdd (EPaths [PCurrent]) (EValue (PVNum (NUInt 1))))] = Err EOther.
 Proof. vm_compute. repeat split; reflexivity. Qed.
 Print Assumptions C08_example_selection.
 
@@ -45,11 +41,12 @@ Theorem C08_bytes_step : forall bs p pos x, den bs pos x ->
 Proof. exact step_pos_den. Qed.
 Print Assumptions C08_bytes_step.
 
-(* the frontier after a whole path, filters included, for every fuel: positions denoting the tree evaluator's items *)
-Theorem C08_bytes_positions_and_filters : forall root, good root -> forall fuel,
+(* the frontier after a whole path, filters included (any length, any nesting: the evaluators recurse on the structure
+   of the expression, there is no fuel): positions denoting the tree evaluator's items *)
+Theorem C08_bytes_positions_and_filters : forall root, good root ->
   (forall cur curv ps, cur_rel root cur curv ->
-     res_rel (Forall2 (den (enc root))) (find_positions_w fuel (enc root) cur ps) (find_positions fuel root curv ps)) /\
-  (forall pos x e, den (enc root) pos x -> res_rel eq (filter_expr_w fuel (enc root) pos e) (filter_expr fuel root x e)).
+     res_rel (Forall2 (den (enc root))) (find_positions_w (enc root) cur ps) (find_positions root curv ps)) /\
+  (forall pos x e, den (enc root) pos x -> res_rel eq (filter_expr_w (enc root) pos e) (filter_expr root x e)).
 Proof. exact find_filter_rel. Qed.
 Print Assumptions C08_bytes_positions_and_filters.
 
@@ -83,13 +80,8 @@ Proof. exact path_match_w_enc. Qed.
 Print Assumptions C08_bytes_path_match.
 
 (* on paths of the parser's image the byte-level selector never panics on an encoding *)
-Theorem C08_bytes_never_panics : forall v ps m buf k, wfb v = true ->
-  match ps with
-  | PCurrent :: r => False
-  | PRoot :: r => forallb (step_ok k) r = true
-  | [PPredicate e] => expr_ok k e = true
-  | r => forallb (step_ok k) r = true
-  end -> select_w (enc v) ps m buf <> Panic.
+Theorem C08_bytes_never_panics : forall v ps m buf, wfb v = true ->
+  path_ok false ps -> select_w (enc v) ps m buf <> Panic.
 Proof. exact select_w_never_panics. Qed.
 Print Assumptions C08_bytes_never_panics.
 
@@ -105,7 +97,7 @@ Example C08_bytes_example :
   select_w (enc doc) p MArray [7] = Ok (7 :: enc (VArr [k 5; k 9]), [43]) /\
   select_w (enc doc) p MFirst [] = Ok (enc (k 5), [15]) /\
   sel_exists_w (enc doc) p = Ok true /\
-  find_positions_w PATH_FUEL (enc doc) None [PRoot; PDotWild; PIndices [ASlice (IIndex 1) (ILast 0)]]
+  find_positions_w (enc doc) None [PRoot; PDotWild; PIndices [ASlice (IIndex 1) (ILast 0)]]
     = Ok [PosC 57 15; PosC 72 15; PosS STRING_TAG 87 1] /\
   select_w (firstn 60 (enc doc)) p MAll [] = Err EOther.
 Proof. vm_compute. repeat split; reflexivity. Qed.
@@ -116,3 +108,42 @@ Theorem C08_bytes_public_is_view : forall md v ps buf, wfb v = true -> top_ok v 
   get_by_path_gen_w md (enc v) ps buf = Dispatch.get_by_path_gen md (enc v) ps buf.
 Proof. exact get_by_path_gen_w_m. Qed.
 Print Assumptions C08_bytes_public_is_view.
+
+(* ---- no recursion budget (PathNoFuel.v): filter_expr / filter_expr_w recurse on the structure of the expression, so a
+   path of ANY length and nesting (thousands of && / || terms, deep parentheses, nested exists(), filters in filters) is
+   evaluated in full; the model error EFuel is never the answer of the tree evaluator on any document, of the byte selector
+   on ANY buffer, or of the public functions on any argument (JSONB or JSON text).  C08_bytes_select and the C15 laws
+   therefore speak about the documented meaning of every path, not about a shared "fuel" outcome. ---- *)
+From JB Require Import PathNoFuel.
+Theorem C08_evaluation_has_no_recursion_budget :
+  (forall root cur ps, find_positions root cur ps <> Err EFuel) /\
+  (forall root e pos, filter_expr root pos e <> Err EFuel) /\
+  (forall root ps m buf, select_t root ps m buf <> Err EFuel) /\
+  (forall root ps, exists_t root ps <> Err EFuel) /\
+  (forall root ps, predicate_match_t root ps <> Err EFuel).
+Proof.
+  exact (conj find_positions_not_fuel (conj filter_expr_not_fuel (conj select_t_not_fuel (conj exists_t_not_fuel predicate_match_t_not_fuel)))).
+Qed.
+Print Assumptions C08_evaluation_has_no_recursion_budget.
+Theorem C08_bytes_selector_has_no_recursion_budget :
+  (forall bs cur ps, find_positions_w bs cur ps <> Err EFuel) /\
+  (forall bs e pos, filter_expr_w bs pos e <> Err EFuel) /\
+  (forall bs ps m buf, select_w bs ps m buf <> Err EFuel) /\
+  (forall bs ps, sel_exists_w bs ps <> Err EFuel) /\
+  (forall bs ps, sel_predicate_match_w bs ps <> Err EFuel) /\
+  (forall md bs ps buf, get_by_path_gen_w md bs ps buf <> Err EFuel) /\
+  (forall bs ps, path_exists_w bs ps <> Err EFuel) /\
+  (forall bs ps, path_match_w bs ps <> Err EFuel).
+Proof.
+  exact (conj find_positions_w_not_fuel (conj filter_expr_w_not_fuel (conj select_w_not_fuel (conj sel_exists_w_not_fuel
+        (conj sel_predicate_match_w_not_fuel (conj get_by_path_gen_w_not_fuel (conj path_exists_w_not_fuel path_match_w_not_fuel))))))).
+Qed.
+Print Assumptions C08_bytes_selector_has_no_recursion_budget.
+(* a filter of 70 `||` terms of which only the last holds is evaluated (by both evaluators) as the crate evaluates it *)
+Example C08_long_chain_is_evaluated :
+  let e := or_chain 70 (EBin OEq (EValue (PVNum (NUInt 1))) (EValue (PVNum (NUInt 1)))) in
+  find_positions (VNum (NUInt 5)) None [PRoot; PFilter e] = Ok [VNum (NUInt 5)] /\
+  select_w (enc (VNum (NUInt 5))) [PRoot; PFilter e] MAll [] = Ok (enc (VNum (NUInt 5)), [10]) /\
+  select_t (VNum (NUInt 5)) [PRoot; PFilter e] MAll [] = Ok (enc (VNum (NUInt 5)), [10]).
+Proof. exact long_chain_is_evaluated. Qed.
+Print Assumptions C08_long_chain_is_evaluated.
